@@ -119,6 +119,12 @@ func (e *Exec) getAt(st *State, v Value, path []PathElem) Value {
 			if pe.Idx == nil {
 				panic(unsupported("field of array"))
 			}
+			if !pe.Idx.konst && len(x.E) > 0 && len(x.E) <= 1024 {
+				// table lookup with a symbolic index (e.g. utf8's first[256]): ite chain over scalar elements; the index
+				// is in range because the bounds check precedes the dereference
+				v = e.selectElem(x.E, pe.Idx)
+				continue
+			}
 			i := e.concreteIndex(st, pe.Idx, len(x.E))
 			v = x.E[i]
 		case ByteArr:
@@ -399,3 +405,22 @@ func (e *Exec) tryMergeFrames(c *Term, a, b *Frame) (f *Frame, ok bool) {
 }
 
 func (s *State) String() string { return fmt.Sprintf("state(pc=%d heap=%d)", len(s.pc), len(s.heap)) }
+
+// selectElem is elems[idx] for a symbolic idx: an ite chain over elements of one shape.
+func (e *Exec) selectElem(elems []Value, idx *Term) (r Value) {
+	defer func() {
+		if p := recover(); p != nil {
+			if _, ok := p.(mergeFail); ok {
+				panic(unsupported("symbolic index into a container whose elements differ in shape"))
+			}
+			panic(p)
+		}
+	}()
+	r = elems[0]
+	for i := 1; i < len(elems); i++ {
+		if !sameValue(elems[i], r) {
+			r = e.mergeValue(e.tc.Eq(idx, e.tc.Int(int64(i))), elems[i], r)
+		}
+	}
+	return r
+}
